@@ -136,7 +136,7 @@ def line_of(root_el, prefix="xtce"):
 
 
 def generate(rng, tier):
-    ndefs = 14 if tier == "quick" else 1500
+    ndefs = 30 if tier == "quick" else 1500
     for _ in range(ndefs):
         d = defgen.Defn(rng, max_depth=rng.choice([1, 2, 3]), fanout=3, adj_pool=c09.ADJ_POOL, rich=True)
         sp = xmlgen.Spelling("prefix", "xtce", comments=0.0)
